@@ -1,4 +1,9 @@
-from .manifest import check, NOT_YET
+CHECKS = {}   # id -> dict(text, note, technique, engine, design)
+NOT_YET = {}  # id -> reason
+
+
+def check(pid, text, note, technique, engine="tlc", design=None):
+    CHECKS[pid] = dict(text=text, note=note, technique=technique, engine=engine, design=design or "DESIGN.md section 5 (%s)" % pid)
 
 TB = ("Trusted: TLC/SANY (and Apalache where named), the JSON<->TLA+ value mapping, the projection code in harness/vt "
       "(no oracle: it drives the API and projects objects), CPython/sqlite3 of /venv, and that the declarative layer "
